@@ -101,6 +101,19 @@ pub fn workload(thorough: bool) -> Vec<Work> {
             }
         }
     }
+    // labels that differ only in letter case are different labels
+    for names in [["data", "Data", "DATA"], ["Loop", "loop", "LOOP"], ["x_a", "X_a", "x_A"]] {
+        for rot in 0..3 {
+            let mut prog = Program::default();
+            prog.push(Some(names[rot % 3]), Stmt::Add(1, 1, Src2::Imm(Lit::dec(1))));
+            prog.push(Some(names[(rot + 1) % 3]), Stmt::Stringz("hi".into()));
+            prog.push(Some(names[(rot + 2) % 3]), Stmt::Fill(Lit::hex(0x1234)));
+            prog.push(None, Stmt::Named(0x25, "halt"));
+            for lay in [Layout::PLAIN, Layout { colon: true, ..Layout::PLAIN }] {
+                w.push(Work { prog: prog.clone(), stack: false, layout: lay });
+            }
+        }
+    }
     // seeds from the corpus in plain layout and one busy layout
     for (prog, stack) in crate::gen::programs::seeds() {
         if prog.items.iter().any(|i| matches!(i, Item::Stmt { label: Some(l), .. } if l.starts_with(|c: char| c.is_ascii_digit()))) {
